@@ -1,38 +1,85 @@
 (* DC07.v — dispatch entries of property C07: (arguments, observed output) ↦ verdict.
-   corr = the executable model's output equals the implementation's observed output (projected observables);
-   prop = the property's boolean checker accepts the implementation's observed output. *)
+   corr = the implementation's output equals the output of the executable *float twin* ShiftF.shift_api_f, which goes through the same
+          binary64 operations (Pow, float64(), Mod, int64()) and the same repeated-addition loop as the Go code (computed fuel);
+   prop = the property's boolean checker: the observed string is the printed modular translation (Shift.check_shift), and for the law
+          entry every observed string is compared with the specification (not with another observed string).
+   Domain: IDs that parse but are not valid (zoom outside 0..35, index outside the grid — e.g. "-1/0/0/0/0", on which the library does not
+   return) and shifts that leave int64 are outside the property's quantifier AND outside what the model claims: the entries answer bad_case
+   there (never a silent pass); the generators do not produce them. *)
 From Coq Require Import ZArith String List Bool.
-From SID Require Import Base Str Ids Wire Shift.
+From SID Require Import Base Str Ids Wire Shift ShiftF.
 Import ListNotations.
 Open Scope string_scope.
 
-  Definition d_shift (args : list val) (obs : val) : verdict :=
-    match args, obs with
-    | [VS id; VZ dx; VZ dy; VZ dv], VS o =>
-        let m := shift_api id dx dy dv in
-        mkv (String.eqb m o) (check_shift id dx dy dv o) "-" (VS m)
-    | _, _ => bad_case
-    end.
+Definition all64 (l : list Z) : bool := forallb int64_ok l.
+(* the call stays inside int64 arithmetic: x+dx, y+dy, f+dv as the code computes them *)
+Definition dom_shift (i : eid) (dx dy dv : Z) : bool :=
+  validb i && all64 [dx; dy; dv; ex i + dx; ey i + dy; ef i + dv].
 
-  (* laws between calls: [s1; s2 = shift s1 b; s12 = shift id (a+b); back = shift s1 (-a); zero = shift id 0] *)
-  Definition shift_laws_model (id : string) (a1 a2 a3 b1 b2 b3 : Z) : list string :=
-    let s1 := shift_api id a1 a2 a3 in
-    [s1; shift_api s1 b1 b2 b3; shift_api id (a1 + b1) (a2 + b2) (a3 + b3); shift_api s1 (- a1) (- a2) (- a3); shift_api id 0 0 0].
-  Definition check_shift_laws (id : string) (a1 a2 a3 b1 b2 b3 : Z) (o : list string) : bool :=
-    match o with
-    | [s1; s2; s12; back; zero] =>
-        let norm := match parse_eid id with Some i => print_eid i | None => EmptyString end in
-        check_shift id a1 a2 a3 s1 && String.eqb s2 s12 && String.eqb back norm && String.eqb zero norm
-    | _ => false
-    end.
-  Definition d_shift_laws (args : list val) (obs : val) : verdict :=
-    match args, as_LS obs with
-    | [VS id; VZ a1; VZ a2; VZ a3; VZ b1; VZ b2; VZ b3], Some o =>
-        let m := shift_laws_model id a1 a2 a3 b1 b2 b3 in
-        mkv (same_list m o) (check_shift_laws id a1 a2 a3 b1 b2 b3 o) "-" (of_LS m)
-    | _, _ => bad_case
-    end.
+Definition d_shift (args : list val) (obs : val) : verdict :=
+  match args, obs with
+  | [VS id; VZ dx; VZ dy; VZ dv], VS o =>
+      match parse_eid id with
+      | None => mkv (String.eqb EmptyString o) (check_shift id dx dy dv o) "-" (VS EmptyString)
+      | Some i =>
+          if dom_shift i dx dy dv then
+            match shift_api_f id dx dy dv with
+            | Some m => mkv (String.eqb m o) (check_shift id dx dy dv o) "-" (VS m)
+            | None => bad_case
+            end
+          else bad_case
+      end
+  | _, _ => bad_case
+  end.
 
+(* laws between calls: [s1 = shift id a; s2 = shift s1 b; s12 = shift id (a+b); back = shift s1 (-a); zero = shift id 0] *)
+Definition obind {A B} (o : option A) (f : A -> option B) : option B := match o with Some a => f a | None => None end.
+Definition shift_laws_model (id : string) (a1 a2 a3 b1 b2 b3 : Z) : option (list string) :=
+  obind (shift_api_f id a1 a2 a3) (fun s1 =>
+  obind (shift_api_f s1 b1 b2 b3) (fun s2 =>
+  obind (shift_api_f id (a1 + b1) (a2 + b2) (a3 + b3)) (fun s12 =>
+  obind (shift_api_f s1 (- a1) (- a2) (- a3)) (fun back =>
+  obind (shift_api_f id 0 0 0) (fun zero => Some [s1; s2; s12; back; zero]))))).
+Definition check_shift_laws (id : string) (a1 a2 a3 b1 b2 b3 : Z) (o : list string) : bool :=
+  match o with
+  | [s1; s2; s12; back; zero] =>
+      let norm := match parse_eid id with Some i => print_eid i | None => EmptyString end in
+      check_shift id a1 a2 a3 s1 &&
+      check_shift id (a1 + b1) (a2 + b2) (a3 + b3) s2 && check_shift id (a1 + b1) (a2 + b2) (a3 + b3) s12 &&
+      String.eqb back norm && String.eqb zero norm
+  | _ => false
+  end.
+(* every intermediate of the five calls (and the sums / negations the invoker forms) stays inside int64 *)
+Definition dom_laws (i : eid) (a1 a2 a3 b1 b2 b3 : Z) : bool :=
+  let w := 2 ^ eh i in
+  validb i &&
+  all64 [a1; a2; a3; b1; b2; b3; a1 + b1; a2 + b2; a3 + b3; - a1; - a2; - a3;
+         ex i + a1; ey i + a2; ef i + a3; (ex i + a1) mod w + b1; (ey i + a2) mod w + b2; ef i + a3 + b3;
+         ex i + (a1 + b1); ey i + (a2 + b2); (ex i + a1) mod w - a1; (ey i + a2) mod w - a2].
+Definition d_shift_laws (args : list val) (obs : val) : verdict :=
+  match args, as_LS obs with
+  | [VS id; VZ a1; VZ a2; VZ a3; VZ b1; VZ b2; VZ b3], Some o =>
+      let ok := match parse_eid id with Some i => dom_laws i a1 a2 a3 b1 b2 b3 | None => true end in
+      if ok then
+        match shift_laws_model id a1 a2 a3 b1 b2 b3 with
+        | Some m => mkv (same_list m o) (check_shift_laws id a1 a2 a3 b1 b2 b3 o) "-" (of_LS m)
+        | None => bad_case
+        end
+      else bad_case
+  | _, _ => bad_case
+  end.
+
+(* the law checker compares every observed string with the specification *)
+Theorem check_shift_laws_sound i a1 a2 a3 b1 b2 b3 o : valid i -> check_shift_laws (print_eid i) a1 a2 a3 b1 b2 b3 o = true ->
+  o = [print_eid (shift_spec i a1 a2 a3); print_eid (shift_spec i (a1 + b1) (a2 + b2) (a3 + b3));
+       print_eid (shift_spec i (a1 + b1) (a2 + b2) (a3 + b3)); print_eid i; print_eid i].
+Proof.
+  intros Hv. unfold check_shift_laws.
+  destruct o as [|s1 [|s2 [|s12 [|back [|zero [|x r]]]]]]; try discriminate.
+  rewrite parse_print_eid by now apply valid_fields_ok.
+  rewrite !andb_true_iff. intros ((((H1 & H2) & H3) & H4) & H5).
+  apply (check_shift_sound i _ _ _ _ Hv) in H1, H2, H3. apply String.eqb_eq in H4, H5. congruence.
+Qed.
 
 Definition table_C07 : table :=
   [("GetShiftingSpatialID", fun _ => d_shift); ("ShiftLaws", fun _ => d_shift_laws)].
